@@ -37,7 +37,10 @@ MasterCreds(m) == IF m = "root"
                   ELSE [ruid |-> 2, euid |-> 2, suid |-> 2, rgid |-> 2, egid |-> 2, sgid |-> 2, groups |-> {2}]
 Id(m, t) == IF t \in {"unset", "same"} THEN (IF m = "root" THEN 0 ELSE 2) ELSE IF t = "other" THEN 1 ELSE 0
 
-Cases == [master : Masters, user : Targets, group : Targets, init : BOOLEAN, known : BOOLEAN]
+(* cap: what the kernel lets a uid-0 process do: "all", or one privilege call refused with EPERM although the caller is
+   uid 0 (CAP_SETUID / CAP_SETGID missing from the bounding set, a user namespace with setgroups denied) *)
+Caps == {"all", "nosetuid", "nosetgid", "noinitgroups"}
+Cases == [master : Masters, user : Targets, group : Targets, init : BOOLEAN, known : BOOLEAN, cap : Caps]
 (* cfg.uid / cfg.gid as validate_user / validate_group deliver them: unset = the master's effective id *)
 CfgU(c) == Id(c.master, c.user)
 CfgG(c) == Id(c.master, c.group)
@@ -45,16 +48,16 @@ CfgG(c) == Id(c.master, c.group)
 Known(c) == IF c.user = "other" THEN c.known ELSE TRUE
 
 (* ------------------------- kernel ------------------------- *)
-KSetuid(c, u) ==
-  IF c.euid = 0 THEN [ok |-> TRUE, c |-> [c EXCEPT !.ruid = u, !.euid = u, !.suid = u]]
+KSetuidC(c, u, cap) ==
+  IF c.euid = 0 /\ cap # "nosetuid" THEN [ok |-> TRUE, c |-> [c EXCEPT !.ruid = u, !.euid = u, !.suid = u]]
   ELSE IF u \in {c.ruid, c.suid} THEN [ok |-> TRUE, c |-> [c EXCEPT !.euid = u]]
   ELSE [ok |-> FALSE, c |-> c]
-KSetgid(c, g) ==
-  IF c.euid = 0 THEN [ok |-> TRUE, c |-> [c EXCEPT !.rgid = g, !.egid = g, !.sgid = g]]
+KSetgidC(c, g, cap) ==
+  IF c.euid = 0 /\ cap # "nosetgid" THEN [ok |-> TRUE, c |-> [c EXCEPT !.rgid = g, !.egid = g, !.sgid = g]]
   ELSE IF g \in {c.rgid, c.sgid} THEN [ok |-> TRUE, c |-> [c EXCEPT !.egid = g]]
   ELSE [ok |-> FALSE, c |-> c]
-KInitgroups(c, u, g) ==
-  IF c.euid = 0 THEN [ok |-> TRUE, c |-> [c EXCEPT !.groups = UG(u) \cup {g}]]
+KInitgroupsC(c, u, g, cap) ==
+  IF c.euid = 0 /\ cap # "noinitgroups" THEN [ok |-> TRUE, c |-> [c EXCEPT !.groups = UG(u) \cup {g}]]
   ELSE [ok |-> FALSE, c |-> c]
 
 (* ------------------------- machine ------------------------- *)
@@ -69,7 +72,11 @@ S0(c) == [case |-> c, k |-> 1, m |-> MasterCreds(c.master), w |-> MasterCreds(c.
           loaded |-> FALSE, atload |-> MasterCreds(c.master), eperm |-> FALSE,
           end |-> "", beat |-> FALSE, calls |-> <<>>]
 
-Fail(s, how, call) == [s EXCEPT !.end = how, !.eperm = TRUE, !.calls = Append(s.calls, call)]
+(* deviation "SwallowEperm": a refused privilege call in the worker is logged and the worker carries on *)
+Fail(s, how, call) ==
+  IF "SwallowEperm" \in Dev /\ how = "bootfail"
+  THEN [s EXCEPT !.k = Len(Order) - 1, !.eperm = TRUE, !.calls = Append(s.calls, call)]
+  ELSE [s EXCEPT !.end = how, !.eperm = TRUE, !.calls = Append(s.calls, call)]
 Adv(s) == [s EXCEPT !.k = s.k + 1]
 
 (* "if gid:" -- the as-is code does nothing about groups when the configured gid is 0 *)
@@ -96,7 +103,7 @@ Stage(s, st) ==
     [] st = "initgroups" ->
          IF s.init /\ GidPart(s)
          THEN IF s.uname = "unbound" THEN [s EXCEPT !.end = "bootfail", !.calls = Append(s.calls, "unbound")]
-              ELSE LET r == KInitgroups(s.w, u, g) IN
+              ELSE LET r == KInitgroupsC(s.w, u, g, c.cap) IN
                    IF r.ok THEN Adv([s EXCEPT !.w = r.c, !.calls = Append(s.calls, "initgroups")])
                    ELSE Fail(s, "bootfail", "initgroups")
          ELSE Adv(s)
@@ -105,7 +112,7 @@ Stage(s, st) ==
                      THEN GidPart(s) /\ ~s.init /\ (IF "GidCompareInverted" \in Dev THEN g = s.w.rgid ELSE g # s.w.rgid)
                      ELSE <<s.w.rgid, s.w.egid, s.w.sgid>> # <<g, g, g>>
          IN IF need
-            THEN LET r == KSetgid(s.w, g) IN
+            THEN LET r == KSetgidC(s.w, g, c.cap) IN
                  IF r.ok THEN Adv([s EXCEPT !.w = r.c, !.calls = Append(s.calls, "setgid")])
                  ELSE Fail(s, "bootfail", "setgid")
             ELSE Adv(s)
@@ -113,7 +120,7 @@ Stage(s, st) ==
          LET need == IF "ZeroUnset" \in Dev THEN u # 0 /\ u # s.w.ruid
                      ELSE <<s.w.ruid, s.w.euid, s.w.suid>> # <<u, u, u>>
          IN IF need
-            THEN LET r == KSetuid(s.w, u) IN
+            THEN LET r == KSetuidC(s.w, u, c.cap) IN
                  IF r.ok THEN Adv([s EXCEPT !.w = r.c, !.calls = Append(s.calls, "setuid")])
                  ELSE Fail(s, "bootfail", "setuid")
             ELSE Adv(s)
@@ -146,7 +153,7 @@ WorkerCredsExact == (s.loaded => Exact(s.case, s.atload)) /\ (s.end = "running" 
 (* a refused drop is a failure to boot, never a worker that goes on *)
 BootErrorNotSilent == s.eperm => (s.end \in {"bootfail", "masterfail"} /\ ~(s.loaded /\ ~Exact(s.case, s.atload)))
 (* what the kernel permits (a privileged master) must succeed *)
-PermittedDropSucceeds == s.m.euid = 0 => s.end \notin {"bootfail", "masterfail"}
+PermittedDropSucceeds == (s.m.euid = 0 /\ s.case.cap = "all") => s.end \notin {"bootfail", "masterfail"}
 MasterKeepsIdentity == s.m = MasterCreds(s.case.master)
 HeartbeatWritable == s.end = "running" => s.beat
 =============================================================================
